@@ -36,9 +36,10 @@ PROPERTIES = {
                       "expand_minimal_spaces returns True only when every minimal trap space inside the start node is the space of an expanded, "
                       "successor-free node (its internal completeness assertion is a declared exceptional outcome, not proved impossible); the "
                       "public wrapper methods pass their arguments on unchanged (delegation contracts); minimal_trap_spaces() lists exactly the expanded "
-                      "leaves in ascending order.",
-        "bounded": "block / SCC / attractor-seed strategies (their drivers are assumed as abstract outcomes) and all strategies end to end vs "
-                   "brute-force minimal trap spaces",
+                      "leaves in ascending order; expand_attractor_seeds (body verified) only ever extends the diagram (monotone extension, invariant kept), so "
+                      "whatever its first step expand_minimal_spaces established about expanded leaves is still there at the end.",
+        "bounded": "block / SCC strategies (their drivers are assumed as abstract outcomes), the pruning test of the attractor-seed strategy, and all "
+                   "strategies end to end vs brute-force minimal trap spaces",
         "excluded": [],
         "trusted": ["L3/L12 (Lean): leaves of the full diagram are the minimal trap spaces", "L13 (cited): block / source-SCC independence"],
     },
@@ -176,6 +177,8 @@ PROPERTIES = {
         "decided_by": "Proved: exceptional postconditions: _expand_one_node / node_successors raising RuntimeError leave the full invariant, the node unexpanded "
                       "without successors and with no cached attractor data, and every other node untouched; expand_bfs / expand_dfs / expand_to_target: "
                       "True => complete, False => a limit was given and the stated reason holds, RuntimeError => invariant and ext preserved; "
+                      "expand_attractor_seeds (body verified): invariant and monotone extension on every exit (True, False, RuntimeError of the motif "
+                      "limit, AssertionError of the inner completeness check), False only at the size limit with an unexpanded node in hand; "
                       "trappist / save_result respect solution limits exactly.",
         "bounded": "identity of partial diagrams across interrupted / uninterrupted runs (two-run comparison)",
         "excluded": [],
